@@ -23,7 +23,22 @@ def run(prop: str, tier: str, replay: str = "") -> int:
             rep.analysed["equivalence_layer"] = model.heal_log
             for line in model.heal_log:
                 print(f"   equiv: {line}")
-        mod.run(model, rep)
+        from .equiv import tree_differs_from_reference
+        from .model import AnchorMissing
+
+        changed = tree_differs_from_reference(model)
+        rep.tree_changed = bool(changed)
+        try:
+            mod.run(model, rep)
+        except AnchorMissing as e:
+            if not changed:
+                raise  # the reviewed tree itself: the analysis is broken, not the repository
+            # The tree was edited and a function / table / statement that the rules of this property are anchored in no
+            # longer exists - and the equivalence layer found no renamed, moved or refactored counterpart.  The mechanism the
+            # property relies on was removed or rewritten beyond recognition: reported as a violation (fail-closed), naming
+            # the anchor, rather than as a broken analysis.
+            r0 = rep.rule(f"{prop}-R0", "ANCHOR", "the constructs the rules of this property were confirmed on still exist (after undoing renames, moves and refactorings that could be proved equivalent)", 0)
+            r0.violation(f"{changed[0]}:0", "anchor", str(e)[:200], f"reviewed construct not found in the edited tree ({', '.join(changed)} differ from the reviewed sources): the mechanism was removed or rewritten and none of its clauses can be re-confirmed")
         st_summary = None
         if tier == "thorough":
             st = importlib.import_module("sa.selftest.runner")
